@@ -90,7 +90,7 @@ def group_by_until_(
                 try:
                     key = key_mapper(x)
                 except Exception as e:
-                    for wrt in writers.values():
+                    for wrt in list(writers.values()):
                         wrt.on_error(e)
 
                     observer.on_error(e)
@@ -102,7 +102,7 @@ def group_by_until_(
                     try:
                         writer = subject_mapper_()
                     except Exception as e:
-                        for wrt in writers.values():
+                        for wrt in list(writers.values()):
                             wrt.on_error(e)
 
                         observer.on_error(e)
@@ -121,7 +121,7 @@ def group_by_until_(
                     try:
                         duration = duration_mapper(duration_group)
                     except Exception as e:
-                        for wrt in writers.values():
+                        for wrt in list(writers.values()):
                             wrt.on_error(e)
 
                         observer.on_error(e)
@@ -146,7 +146,7 @@ def group_by_until_(
 
                     @synchronized(lock)
                     def on_error(exn: Exception) -> None:
-                        for wrt in writers.values():
+                        for wrt in list(writers.values()):
                             wrt.on_error(exn)
                         observer.on_error(exn)
 
@@ -160,7 +160,7 @@ def group_by_until_(
                 try:
                     element = element_mapper_(x)
                 except Exception as error:
-                    for wrt in writers.values():
+                    for wrt in list(writers.values()):
                         wrt.on_error(error)
 
                     observer.on_error(error)
@@ -170,14 +170,14 @@ def group_by_until_(
 
             @synchronized(lock)
             def on_error(ex: Exception) -> None:
-                for wrt in writers.values():
+                for wrt in list(writers.values()):
                     wrt.on_error(ex)
 
                 observer.on_error(ex)
 
             @synchronized(lock)
             def on_completed() -> None:
-                for wrt in writers.values():
+                for wrt in list(writers.values()):
                     wrt.on_completed()
 
                 observer.on_completed()
